@@ -2,6 +2,7 @@ import PlasVerif.Driver.Util
 import PlasVerif.Spec.Isolation
 import PlasVerif.Model.ClassCache
 import PlasVerif.Model.Holders
+import PlasVerif.Model.FileLookup
 namespace PlasVerif.Driver.C17
 open PlasVerif.Driver PlasVerif.Model.GlobalState PlasVerif.Spec.Isolation PlasVerif.Generated.GlobalState
 
@@ -11,11 +12,11 @@ def bit? : String → Option Bool
 
 def tyStr : ArgTy → String
   | .number => "number" | .dimen => "dimen" | .tok => "tok" | .args => "args" | .any => "any"
-  | .optnone => "optnone" | .normal => "normal" | .numreg => "numreg" | .dimenreg => "dimenreg" | .gluereg => "gluereg"
+  | .optnone => "optnone" | .normal => "normal" | .numreg => "numreg" | .dimenreg => "dimenreg" | .gluereg => "gluereg" | .glue => "glue"
 def ty? : String → Option ArgTy
   | "number" => some .number | "dimen" => some .dimen | "tok" => some .tok | "args" => some .args
   | "any" => some .any | "optnone" => some .optnone | "normal" => some .normal
-  | "numreg" => some .numreg | "dimenreg" => some .dimenreg | "gluereg" => some .gluereg | _ => none
+  | "numreg" => some .numreg | "dimenreg" => some .dimenreg | "gluereg" => some .gluereg | "glue" => some .glue | _ => none
 def clsStr : Cls → String
   | .article => "article" | .book => "book" | .report => "report"
 def cls? : String → Option Cls
@@ -28,10 +29,10 @@ def ev? (w : String) : Option Ev :=
   | ["D"] => some .dollar
   | ["bo"] => some .boxOpen | ["bc"] => some .boxClose
   | ["lb"] => some .listBegin | ["le"] => some .listEnd | ["it"] => some .item
-  | ["as", r, x] => do pure (.assign (← r.toNat?) (← x.toInt?))
+  | ["as", r, x] | ["as", r, x, _] => do pure (.assign (← r.toNat?) (← x.toInt?))     -- 4th field: spelling of the literal
   | ["cp", r, q] => do pure (.copy (← r.toNat?) (← q.toNat?))
   | ["us", r] => do pure (.use (← r.toNat?))
-  | ["ar", t] => do pure (.arg (← ty? t))
+  | ["ar", t] | ["ar", t, _] => do pure (.arg (← ty? t))
   | ["dc", c] => do pure (.docclass (← cls? c))
   | ["ix"] => some .printindex
   | ["nc", n] => do pure (.newcol (← n.toNat?))
@@ -180,6 +181,42 @@ def handleHolders : List String → String
     | _, _, _ => "bad-op"
   | _ => "bad-op"
 
+/-! stream `kpse`:  `F<d.n,d.n,…|-> | <ti csv|-> <src|-> <abs 0/1> <name> ; …`  → per request `f<dir>|as|nf` and whether
+    TEXINPUTS is what it was -/
+section KP
+open PlasVerif.Model.FileLookup
+
+def file? (s : String) : Option (Nat × Nat) :=
+  match s.splitOn "." with
+  | [d, n] => do pure (← d.toNat?, ← n.toNat?)
+  | _ => none
+
+def resStrK : Res → String
+  | .found d => s!"f{d}" | .asis => "as" | .notFound => "nf"
+
+def req? : List String → Option (List Nat × Req)
+  | [ti, src, ab, name] => do
+    let ti ← nats? ti
+    let src ← if src == "-" then some none else (src.toNat?).map some
+    pure (ti, { name := ← name.toNat?, abs := ← bit? ab, src := src })
+  | _ => none
+
+def handleKpse (rest : List String) : String :=
+  let (fw, rw) := splitAt1 "|" rest
+  match fw, (splitAll ";" rw).mapM req? with
+  | [f], some reqs =>
+    let fs := (f.drop 1).toString
+    match (if fs == "-" then some [] else (fs.splitOn ",").mapM file?) with
+    | some files =>
+      let outs := reqs.map fun q =>
+        let r := kpsewhich files q.1 q.2
+        s!"{resStrK r.1}:{if r.2 == q.1 then "e1" else "e0"}"
+      let spec := reqs.map fun q => s!"{resStrK (find files q.1 q.2)}:e1"
+      s!"{" ; ".intercalate outs}\t{" ; ".intercalate spec}"
+    | none => "bad-op"
+  | _, _ => "bad-op"
+end KP
+
 def handle : List String → String
   | "gread" :: vb :: rest =>
     let (st, docs) := splitAt1 "|" rest
@@ -199,6 +236,7 @@ def handle : List String → String
     | _, _, _ => "bad-op"
   | "ccache" :: inh :: rest => handleCC inh rest
   | "holders" :: rest => handleHolders rest
+  | "kpse" :: rest => handleKpse rest
   | _ => "bad-op"
 
 end PlasVerif.Driver.C17
